@@ -210,7 +210,9 @@ def rule_insert_remove(ctx, prog, eff):
                     if r[0] == 'cmp' and r[1] == 'Eq':
                         for lhs, rhs in ((r[2], r[3]), (r[3], r[2])):
                             e3 = {}
-                            if unref(rhs)[:2] == ('param', 3) and match(C("MmapRegion::size", F(ALT(C("Deref::deref", V("el")), V("el")), "mapping")), lhs, e3):
+                            lhs = eff.inline_deep(lhs)      # regions[i].len() is the getter of regions[i].mapping.size()
+                            if unref(rhs)[:2] == ('param', 3) and match(ALT(C("MmapRegion::size", F(ALT(C("Deref::deref", V("el")), V("el")), "mapping")),
+                                                                             F(F(ALT(C("Deref::deref", V("el")), V("el")), "mapping"), "size")), lhs, e3):
                                 el = e3["el"]
                                 size_ok = any(x == idx for x in subterms(el))
                 okr = shape and vec_ok and search_ok and size_ok
